@@ -12,6 +12,7 @@ CONSTANTS
   InitScopeSets = {{}, {"all"}}
   HiddenChoices = {{}}
   ActScopes = {"all", "p1"}
+  RepKinds = {}
   MaxNow = 8
   Depth = 4
   FullParams = {"p1"}
@@ -19,6 +20,7 @@ CONSTANTS
   GenConns = {"c2"}
   GenDefaults = {"b"}
   GenLiteOmit = {2}
+  GenExtra = {"Nest"}
 CONSTRAINT Bound
 INVARIANT EmitMax
 CHECK_DEADLOCK FALSE
